@@ -14,7 +14,8 @@ RULE = ("(read-only) for families x configuration classes (tags x rated power x 
         "get_operation_mode, get_ongrid_battery_dod); every frame the simulated inverter decodes during the monitoring phase must "
         "be read-class (Modbus fc 03, AA55 01xx); (invalid arguments) every integer in [-300, 300] and samples up to +-70000 for "
         "export limit, DoD, eco power and eco SoC outside their valid intervals, and random unknown setting ids: zero write-class "
-        "frames (fc 06/16, AA55 02xx/03xx), ValueError where documented; distinct = distinct (family, configuration, call) and "
+        "frames (fc 06/16, AA55 02xx/03xx), ValueError where documented; settings of newer firmware on an inverter whose probes were rejected; "
+        "a setter with lost datagrams running concurrently with monitoring calls must cause exactly lost+1 write frames; distinct = distinct (family, configuration, call) and "
         "(setter, argument) tuples")
 ASSUMPTIONS = ["frames are classified by an independent decoder inside the simulated inverter",
                "'modbus-N' ids are documented raw-register access and are not 'unknown' ids"]
